@@ -315,7 +315,7 @@ Definition minus_one (bor : list off) (o : off) (bor' : list off) : Prop :=
 
 Lemma release_spec c bor o bor' :
   conn_inv c bor -> minus_one bor o bor' ->
-  length (c_sub c) + length bor + length (c_comp c) <= c_B c + c_M c ->
+  length (c_sub c) + length bor + length (c_comp c) <= c_B c + c_M c + 1 ->
   exists c', c_release c o = Val (c', true)                                   (* the completion queue is never full *)
              /\ c_sub c' = c_sub c /\ c_used c' = c_used c /\ c_comp c' = c_comp c ++ [o] /\ conn_inv c' bor'.
 Proof.
@@ -387,7 +387,7 @@ Qed.
 (* ---------------------------------------------------------------------------------------- *)
 Lemma receive_reject_then_release c bor o bor' :
   conn_inv c bor -> snd (c_receive c) = RcvExceedsMaxBorrow -> minus_one bor o bor' ->
-  length (c_sub c) + length bor + length (c_comp c) <= c_B c + c_M c -> c_borrow c = c_M c ->
+  length (c_sub c) + length bor + length (c_comp c) <= c_B c + c_M c + 1 -> c_borrow c = c_M c ->
   fst (c_receive c) = c /\
   exists c1, c_release c o = Val (c1, true) /\ snd (c_receive c1) <> RcvExceedsMaxBorrow.
 Proof.
